@@ -206,6 +206,11 @@ func (e *clockEngine) Gen(r *Rand, tier string) any {
 				opts = append(opts, ceiling-1, ceiling, ceiling+1)
 			}
 			call.MaxNs = opts[r.Intn(len(opts))]
+			if c.DeadlineNs > 0 && ceiling == 0 && r.Chance(1, 4) {
+				// no cap to speak of: only the deadline stands between an
+				// enormous duration and the timer
+				call.MaxNs = math.MaxInt64
+			}
 		case 2:
 			call.MaxBad = "notdur"
 		}
@@ -216,7 +221,9 @@ func (e *clockEngine) Gen(r *Rand, tier string) any {
 			cap = ceiling
 		}
 		cands := []int64{0, -1, 1, cap - 1, cap, cap + 1, 1 + r.I63n(span), 1 + r.I63n(cap)}
-		if r.Chance(1, 6) {
+		if call.HasMax && call.MaxNs == math.MaxInt64 {
+			cands = []int64{math.MaxInt64, math.MaxInt64 - 1, 9000000000000000000, 8400000000000000000, math.MaxInt64 - c.DeadlineNs, math.MaxInt64 - 946684800000000000, c.DeadlineNs + 1}
+		} else if r.Chance(1, 6) {
 			// durations at the edge of the representable range: always above
 			// every cap, whatever is added to or subtracted from them
 			cands = []int64{math.MaxInt64, math.MaxInt64 - 1, math.MinInt64, math.MinInt64 + 1, math.MaxInt64 - cap}
